@@ -1,4 +1,4 @@
-HOOK_COMMITS = []
+HOOK_COMMITS = ["725ea72"]
 COMMON_NOTE = ("Trusted: Coq 8.16.1 kernel, extraction (ExtrOcamlBasic, ExtrOcamlZBigInt), zarith, the OCaml driver, the Rust harness and the "
                "python orchestration; groups/pairing modelled as discrete logs over an abstract field; ark-* primitives, hashes and sponges are oracles. "
                "Theorems are about the model; the model is tied to /repo by the correspondence run of this check.")
@@ -44,6 +44,18 @@ CHECKS += [
              "independent implementation of the relation: its decisions are compared with the library's over the single-fault neighbourhood of "
              "honest transcripts (statement, proof and key components replaced).",
      "note": COMMON_NOTE + GENERIC},
+]
+CHECKS += [
+    {"property_id": "C13",
+     "text": "Coq theorems (exact integer arithmetic, all arguments): calculate_t's model returns min(t, n) with t THE least count satisfying "
+             "2*(1-d/2)^t + n/|F| <= 2^-lambda (holds at t, fails below, monotone above), errors exactly when no t exists or the distance is "
+             "degenerate; derived column positions are < n, one per squeeze, and the byte fold cannot overflow; Reed-Solomon encoding is linear of "
+             "the declared length. Correspondence: the library's f64 calculate_t (hook) against the exact model on a grid of (lambda, distance, n, "
+             "field); get_indices_from_sponge against the model on the squeezed bytes; reed_solomon against evaluation on the domain; honest "
+             "Ligero/Brakedown proofs open exactly t columns at the transcript-derived positions.",
+     "note": COMMON_NOTE + " f64 log2/powi/ceil are not modelled: the exact function is the model and the correspondence decides whether the code "
+             "computes it; the comparator accepts the exact minimum for |F| or for 2^bits (the code divides by 2^MODULUS_BIT_SIZE; they differ only in a "
+             "thin band next to infeasibility). Brakedown's sparse encoder is checked for linearity and length on the implementation only."},
 ]
 _PENDING = "check not built yet in this round (model and correspondence under construction; see DESIGN.md section 7)"
 _CLAIMED = {c["property_id"] for c in CHECKS}
